@@ -169,7 +169,8 @@ def jobs(tier):
 def meta(tier):
     return dict(
         bounds=dict(items="<= 3 items, every multiplicity vector and signed permutation (quick: up to relabelling); thorough adds four distinct items for a few sign patterns",
-                    item_step="encoding 1: one item into an arbitrary feasible bin with K <= 3 (thorough 4) boxes lands exactly where the reference rule puts it (or opens a new bin)",
+                    item_step="encoding 1: one item into an arbitrary feasible bin with K <= 3 (thorough 4) boxes lands exactly where the reference rule puts it (or opens a new bin); encoding 2: for every distribution of K <= 3 (thorough 4) rows "
+                              "over the open bins the item lands in the FIRST bin in which the reference rule ends inside the bin, at that place",
                     sizes="bin and item sizes symbolic in 1..10^12", prior_state="destination packing and the encoder's scratch arrays start as arbitrary garbage; "
                           "the reference does not read them, so agreement implies independence from earlier decodings"),
         outside=["more items", "the reference model is my reading of the module documentation (harness/ibl_reference.py)"],
